@@ -84,6 +84,11 @@ func NewNegotiator(cfg func(*Session, *StreamConfig) StreamConfig) Negotiator {
 type negotiatorState struct {
 	doRestart bool
 	cancelTee context.CancelFunc
+	// started is set once a features list has been negotiated.
+	// It is carried in the state (and not derived from the state being absent)
+	// because a call that only wraps the connection in a tee also returns a
+	// state, and the features list that follows it is still the first one.
+	started bool
 }
 
 func negotiator(f func(*Session, *StreamConfig) StreamConfig) Negotiator {
@@ -204,7 +209,9 @@ func negotiator(f func(*Session, *StreamConfig) StreamConfig) Negotiator {
 		}
 
 		cfg = f(s, &cfg)
-		mask, rw, err = negotiateFeatures(ctx, s, data == nil, websocket, cfg.Features)
+		first := !nState.started
+		nState.started = true
+		mask, rw, err = negotiateFeatures(ctx, s, first, websocket, cfg.Features)
 		nState.doRestart = rw != nil
 		return mask, rw, nState, err
 	}
